@@ -369,52 +369,7 @@ def u2u3(fb, chk, defs):
                       "%s does not return field %s of the struct passed to the kernel" % (f.short, want), f.loc())
 
 
-def _concrete_aty(f, sym, t, idx):
-    """Type of call argument `idx`; when the call sits in an expanded generic helper (`&T`), the type of the caller's value
-    that was passed down."""
-    import re as _re
-    aty = t["atys"][idx]
-    if not _re.match(r"^&?(mut )?[A-Z][A-Za-z0-9]?$", aty.strip()):
-        return aty
-    op = t["args"][idx]
-    for _ in range(8):
-        if op["k"] not in ("copy", "move") or op["pl"]["p"]:
-            break
-        l = op["pl"]["l"]
-        ty = f.locals[l].get("ty") or ""
-        if not _re.match(r"^&?(mut )?[A-Z][A-Za-z0-9]?$", ty.strip()) and ty not in ("?", "&?", ""):
-            return ty
-        ds = sym.defs.get(l, [])
-        if len(ds) != 1 or ds[0][0] != "assign":
-            break
-        rv = ds[0][3]
-        if rv["k"] == "use":
-            op = rv["op"]
-        elif rv["k"] in ("ref", "rawptr") and [x["k"] for x in rv["pl"]["p"]] == ["deref"]:
-            op = {"k": "copy", "pl": {"l": rv["pl"]["l"], "p": []}}      # reborrow of a reference local
-        elif rv["k"] in ("ref", "rawptr") and not rv["pl"]["p"]:
-            ty = f.locals[rv["pl"]["l"]].get("ty") or ""
-            if not _re.match(r"^[A-Z][A-Za-z0-9]?$", ty.strip()) and ty not in ("?", ""):
-                return "&" + ty
-            # a by-value generic parameter of the expanded helper: the type of what was moved into it
-            l2 = rv["pl"]["l"]
-            for _h in range(4):
-                d2 = sym.defs.get(l2, [])
-                if len(d2) != 1 or d2[0][0] != "assign" or d2[0][3]["k"] != "use":
-                    break
-                o2 = d2[0][3]["op"]
-                if o2["k"] == "const":
-                    return "&" + (o2.get("ty") or "?")
-                if o2["pl"]["p"]:
-                    break
-                l2 = o2["pl"]["l"]
-                ty2 = f.locals[l2].get("ty") or ""
-                if not _re.match(r"^[A-Z][A-Za-z0-9]?$", ty2.strip()) and ty2 not in ("?", ""):
-                    return "&" + ty2
-            op = {"k": "copy", "pl": rv["pl"]}
-        else:
-            break
-    return aty
+from vlint.util import concrete_arg_type as _concrete_aty  # noqa: E402
 
 
 def _borrowed_local(sym, op):
@@ -626,7 +581,7 @@ def u4(fb, chk):
     # field provenance of the writer
     nw = 0
     for w in field_writes(f):
-        if w["field"] in IOTLB_W and (w["adt"] or "").endswith("vhost_iotlb_msg"):
+        if w["field"] in IOTLB_W and (w.get("leaf_adt") or w["adt"] or "").endswith("vhost_iotlb_msg"):
             nw += 1
             rv = m.sym.rvalue(w["rv"])
             r, chain = peel(rv)
@@ -658,7 +613,7 @@ def u4(fb, chk):
         tag = fb.const_value("vhost_binding::VHOST_IOTLB_MSG_V2" if adt == "vhost_msg_v2" else "vhost_binding::VHOST_IOTLB_MSG")
         cnt = 0
         for w in field_writes(p):
-            if w["field"] not in IOTLB_R or not (w["adt"] or "").endswith("VhostIotlbMsg"):
+            if w["field"] not in IOTLB_R or not (w.get("leaf_adt") or w["adt"] or "").endswith("VhostIotlbMsg"):
                 continue
             cnt += 1
             rv = pm.sym.rvalue(w["rv"])
@@ -677,7 +632,7 @@ def u4(fb, chk):
         chk.check(cnt == 5, "U4", "parser:%s:fields" % adt, "5 fields parsed", "expected 5 parsed fields, found %d" % cnt, p.loc())
         # every message type / permission the UAPI defines parses back: the facts under which the fields are stored must
         # hold for each discriminant of VhostIotlbType and VhostAccess (only the undefined value 0 of `type` may be refused)
-        stores = [w for w in field_writes(p) if w["field"] in IOTLB_R and (w["adt"] or "").endswith("VhostIotlbMsg")]
+        stores = [w for w in field_writes(p) if w["field"] in IOTLB_R and (w.get("leaf_adt") or w["adt"] or "").endswith("VhostIotlbMsg")]
         if stores:
             atoms = pm.atoms_at(stores[0]["bb"])
             for fld, enum in (("type_", "VhostIotlbType"), ("perm", "VhostAccess")):
